@@ -102,7 +102,7 @@ def ob_atomic(timeout=10):
 def ob_adopt(timeout=30):
     m = Module.load(BS); c = m.classes['BaseSimulation']
     f1, f2, f3 = c.methods['_find_current_simulation'], c.methods['load_results'], c.methods['load_results_from_dict']
-    problems = []
+    problems, unrec = [], []
     # _find_current_simulation: symbolic execution over a two-record list
     inputs = Opaque('self._inputs')
     recs = [D({'inputs': Opaque('in%d' % k), 'results': Opaque('res%d' % k)}) for k in range(2)]
@@ -141,13 +141,15 @@ def ob_adopt(timeout=30):
     # load_results_from_dict: only keys of self._results that are in data['results']
     src3 = ast.unparse(f3.node)
     if 'for key in self._results.keys()' not in src3 or "if key in data['results'].keys()" not in src3 or "self._results[key] = data['results'][key]" not in src3:
-        problems.append('load_results_from_dict does not copy exactly the keys the simulation already has')
+        unrec.append('load_results_from_dict does not literally copy the keys the simulation already has')
     for n in ast.walk(f3.node):
         if isinstance(n, ast.Subscript) and isinstance(n.ctx, ast.Store) and ast.unparse(n.value) not in ('self._results',):
             problems.append('load_results_from_dict writes %s' % ast.unparse(n))
     src2 = ast.unparse(f2.node)
     if 'data_simulation = self._find_current_simulation(data)' not in src2 or 'self.load_results_from_dict(data_simulation)' not in src2 or "if data_simulation != {}" not in src2:
-        problems.append('load_results does not adopt exactly the record found by _find_current_simulation')
+        unrec.append('load_results does not literally adopt the record found by _find_current_simulation')
+    if unrec and not problems:
+        raise Unsupported('source shape not recognised: %s' % unrec)
     return dict(verdict='refuted' if problems else 'discharged', model=dict(problems=problems) if problems else None, backend='z3-' + z3.get_version_string(), seconds=0, kind='state',
                 detail='; '.join(problems) or 'adoption only from the record with equal inputs, only existing keys',
                 functions=[dict(function=g.ref, sha256_16=g.sha) for g in (f1, f2, f3)], transparent=sorted(x.transparent))
@@ -176,7 +178,7 @@ def ob_count(which, timeout=30):
     class Sims:
         def acc_loop(s_, x, st, s, env):
             env[s.target.id] = sim
-            x.block(s.body, env, st)
+            x.loop_body(s.body, env, st)
     selfo = Obj(c, {'_simulations': Sims(), 'update_frequency': z3.Int('uf'), 'save_frequency': z3.Int('sf')}, 'batch')
     intr = {'simulation.run': lambda x, st, a, k: (ran.append((st.live, a)) or NONE),
             'self.save_results': lambda x, st, a, k: (saves.append(st.live) or NONE),
@@ -187,7 +189,7 @@ def ob_count(which, timeout=30):
     st = St(z3.And(z3.Int('uf') >= 1, z3.Int('sf') >= 1))
     x._cur_class = c
     x.pos_div = True
-    x.block(loop.body, env, st)
+    x.loop_body(loop.body, env, st)
     if len(ran) != 1 or not (len(ran[0][1]) == 1 and conc(ran[0][1][0]) == 1):
         return dict(verdict='refuted', model=None, backend='pyvc-symex', seconds=0, kind='state', detail='each simulation is not advanced by exactly run(1) at one site',
                     functions=[dict(function=f.ref, sha256_16=f.sha)], transparent=[])
